@@ -1,6 +1,7 @@
 package main
 
 import (
+	"golang.org/x/tools/go/ssa"
 	"encoding/json"
 	"flag"
 	"fmt"
@@ -92,6 +93,77 @@ func loadMutants(prop string) []Mutant {
 }
 
 // runMutant applies one in-memory rewrite and reports the locked obligations that fail.
+var pristine *Engine
+
+// ssaText renders every repository function; two engines are compared to find
+// the functions a mutant actually changed.
+func ssaText(eng *Engine) map[string]string {
+	out := map[string]string{}
+	for _, fn := range eng.repoFuncs() {
+		var b strings.Builder
+		fn.WriteTo(&b)
+		out[fn.String()] = b.String()
+	}
+	return out
+}
+
+var pristineText map[string]string
+
+// affectedFuncs: functions whose SSA differs from the pristine tree, plus their
+// transitive static callers (a caller may inline or depend on a changed callee).
+func affectedFuncs(eng *Engine) map[string]bool {
+	if pristine == nil {
+		p, err := loadEngine("/repo", repoPkgPatterns, nil)
+		if err != nil {
+			return nil
+		}
+		pristine = p
+		pristineText = ssaText(p)
+	}
+	cur := ssaText(eng)
+	changed := map[string]bool{}
+	for n, t := range cur {
+		if pristineText[n] != t {
+			changed[n] = true
+		}
+	}
+	for n := range pristineText {
+		if _, ok := cur[n]; !ok {
+			changed[n] = true
+		}
+	}
+	// callers closure
+	callers := map[string][]string{}
+	for _, fn := range eng.repoFuncs() {
+		for _, b := range fn.Blocks {
+			for _, in := range b.Instrs {
+				if ci, ok := in.(ssa.CallInstruction); ok {
+					if c := ci.Common().StaticCallee(); c != nil {
+						callers[c.String()] = append(callers[c.String()], fn.String())
+					}
+				}
+				if mc, ok := in.(*ssa.MakeClosure); ok {
+					if f, ok := mc.Fn.(*ssa.Function); ok {
+						callers[f.String()] = append(callers[f.String()], fn.String())
+					}
+				}
+			}
+		}
+	}
+	work := sortedKeys(changed)
+	for len(work) > 0 {
+		n := work[len(work)-1]
+		work = work[:len(work)-1]
+		for _, c := range callers[n] {
+			if !changed[c] {
+				changed[c] = true
+				work = append(work, c)
+			}
+		}
+	}
+	return changed
+}
+
 func runMutant(prop string, m Mutant, seed int) (failed []string, err error) {
 	path := filepath.Join("/repo", m.File)
 	src, e := os.ReadFile(path)
@@ -106,16 +178,27 @@ func runMutant(prop string, m Mutant, seed int) (failed []string, err error) {
 	if e != nil {
 		return nil, e
 	}
-	run := runProperty(eng, prop, "quick", seed, 0)
+	only := affectedFuncs(eng)
+	run := runPropertyFiltered(eng, prop, "quick", seed, 0, only, false)
 	lock := readLock()
 	generated := map[string]bool{}
+	genFuncs := map[string]bool{}
 	for _, it := range run.Items {
 		generated[it.Name] = true
+		genFuncs[it.Func] = true
 		if it.Locked && it.Status != "discharged" {
 			failed = append(failed, it.Name)
 		}
 	}
 	for _, n := range lock[prop] {
+		// only functions that were regenerated can have lost an obligation
+		fnOf := n
+		if i := strings.Index(n, "/"); i > 0 {
+			fnOf = n[:i]
+		}
+		if only != nil && !genFuncs[fnOf] && !strings.HasPrefix(n, "frame/") {
+			continue
+		}
 		if !generated[n] {
 			for _, p := range strings.Split(n, "/") {
 				if contractKind(p) {
